@@ -22,6 +22,7 @@ class TlcResult:
         self.error = None          # None | 'invariant' | 'deadlock' | 'action_property' | 'temporal' | 'assert'
         self.error_name = None
         self.trace = []            # list of (action_label, state dict)
+        self.traces = []
         self.coverage = {}         # action name -> count of states generated (summed over disjuncts)
         self.prints = []           # PrintT outputs (raw strings)
         self.wall = 0.0
@@ -169,7 +170,11 @@ def parse_output(out):
         else:
             r.error = 'machinery'
     if r.error in ('deadlock', 'invariant', 'action_property', 'temporal'):
-        r.trace = parse_trace(out)
+        # with -continue several error traces are printed; keep them all, .trace is the first
+        chunks = re.split(r'^Error: (?=Deadlock reached|Invariant \w+ is violated|Action property)', out, flags=re.M)[1:]
+        r.traces = [parse_trace(c) for c in chunks]
+        r.traces = [t for t in r.traces if t]
+        r.trace = r.traces[0] if r.traces else parse_trace(out)
     return r
 
 
